@@ -95,7 +95,7 @@ def verdict(r):
     # a k b | a k b hang stops sync ncmds errs
     dbg, plain, hang, stops, errs = impl[0:3], impl[4:7], impl[7], impl[8], impl[11]
     if hang != "0":
-        probs.append(("hang", "the cycle thread stayed parked after a %s (3 s / 10 s limit)" % ("continue/step issued at a stop" if hang == "1" else "final continue with no breakpoints")))
+        probs.append(("hang", "the cycle thread stayed parked after a %s (20 s / 30 s limit)" % ("continue/step issued at a stop" if hang == "1" else "final continue with no breakpoints")))
     elif dbg != plain or errs != "0":
         probs.append(("transparency", "final state under the debugger %s differs from the undebugged run %s (cycle errors: %s)" % (dbg, plain, errs)))
     if r["spec_ok"] and hang == "0" and stops != r["model"].split()[0]:
